@@ -34,6 +34,13 @@ def build_cases(tier, seed):
     cs.append(("single", (c3, None, (("A", 1), ("B", F(1, 2))))))
     for r in fam.weak_family(4):
         cs.append(("single", (fam.cands(4), r, None)))
+    # ballots that list a candidate more than once (as loaders can produce them)
+    reps = [tuple((x,) for x in s) for L in (2, 3) for s in itertools.product(c3, repeat=L) if len(set(s)) < L]
+    reps += [(("A", "B"), ("A",)), (("A",), ("A", "B")), (("A", "B"), ("B", "C")), (("C",), ("A", "B"), ("C",))]
+    for r in reps:
+        cs.append(("single", (c3, r, None)))
+    for a, b in itertools.product(reps[::2], fam.rank_family(3)[::2] + reps[1::3]):
+        cs.append(("remove", (c3, ((a, 1), (b, F(1, 2))))))
     for r in W3 + (fam.weak_family(4) if tier != "quick" else fam.weak_family(4)[::3]):
         cs.append(("expand", r))
     for c in fam.prof_list(W3, 2, (1, F(3, 2)), c3):
@@ -48,7 +55,8 @@ def build_cases(tier, seed):
             cs.append(("clean", combo))
     _CASES = cs
     meta = {
-        "family": "remove_cand: Prof(Weak(3),2,W) as profile / ballot tuple x every subset of {A,B,C,Z} (as list, singletons also as str) x condense x "
+        "family": "remove_cand: ballots listing a candidate twice (all sequences of length 2..3 over {A,B,C} with a repeat, tied positions with a repeat) "
+                  "alone and paired with other ballots; Prof(Weak(3),2,W) as profile / ballot tuple x every subset of {A,B,C,Z} (as list, singletons also as str) x condense x "
                   "leave_zero_weight_ballots; every single ballot of Weak(3) (with and without scores) and Weak(4); expand_tied_ballot on Weak(3)/Weak(4); "
                   "add_missing_cands / resolve_profile_ties on Prof(Weak(3),2,{1,3/2}); cleaning functions on ballots over {A,B,C,blank} of length <= 3 "
                   "with repetitions, profiles of up to 2 (quick) / 3 such ballots in every order",
